@@ -34,6 +34,29 @@ CHECKS.update({
    note="Fixed key material; byte-level neighbourhoods rather than all strings; only the first read of tampered data is judged; nonce uniqueness observed black-box via ciphertext distinctness of identical plaintexts.", ref="§4 C11"),
 })
 
+CHECKS.update({
+ "C04": dict(cat="exploration", engine="chanmc+explore (in-package contractcourt)",
+   technique="explicit-state exploration of the real LightningChannel pair; the harness plays the cheater by snapshotting each party's broadcastable txs, and the victim's NewBreachRetribution -> newRetributionInfo -> RetributionStore round trip -> createJusticeTx output is executed input by input in txscript.Engine against the real revoked and second-level outputs",
+   text="Bounded exhaustive enumeration (deviation-bounded and full interleavings, a reload at every point) of real two-peer histories on all 7 channel types; every revoked height is judged from persisted state: state hint, recorded indexes/amounts, ErrRevLogDataMissing exactly when specified, and script-interpreter validity of every justice input incl. second-level conversions.",
+   note="One listed finding (lease channel, victim is opener: to_remote CLTV vs nLockTime 0). Justice fee/weight not judged; chain watcher dispatch itself not driven; <=3 HTLCs, one fee update, 2 reconnects.", ref="§4 C04"),
+ "C05": dict(cat="exploration", engine="chanmc+explore",
+   technique="explicit-state exploration of the real LightningChannel pair (chanmc); per distinct state the node's ForceClose / NewUnilateralCloseSummary resolutions are turned into the resolvers' sweep inputs and executed in the btcd script interpreter against true prevouts, with one-block-early negative controls and a claimable-value equation from the explorer's HTLC table",
+   text="Every distinct reachable state of the bounded two-peer scripts (all 7 channel types, both roles, mid-dance pending commitments, reloads) x {own, peer-current, peer-pending} close is judged by the script interpreter on every commitment, second-level and sweep input.",
+   note="Witness-type choice transcribes contractcourt's resolver switches (resolver goroutines not executed); identical close scenarios within a space are validated once (exact input fingerprint); own close checked from local height 1 (fixture's height-0 signature is fake).", ref="§4 C05"),
+ "C07": dict(cat="model_checking", engine="seqmc+vsched/vsync+explore+crashdb",
+   technique="explicit-state BFS over op alphabets on the real circuit map (seqmc), crashdb crash/failure injection after every durable write, cooperative scheduler vsched with a sync-import shim (vsync) exploring every schedule of 2-3 threads, plus a free-running -race pass over the same bodies",
+   text="Every operation sequence (to a fixpoint for the small universe, depth-bounded for the larger one), every crash point between durable writes, write-failure injection, and every schedule of 2-3 threads on one circuit are executed on the real circuitMap and judged by a reference model written from the statement (at-most-once, restart equivalence, purge rules, linearizability of close/fail/delete/lookups).",
+   note="Contract assumptions (contiguous outgoing HTLC ids; Commit||Delete and Open||Delete of the same key never concurrent; no delete of a circuit whose outgoing HTLC is uncommitted) are listed in evidence.assumptions; data races are covered by the thorough-only -race target.", ref="§4 C07"),
+ "C17": dict(cat="exploration", engine="chanmc+grid (in-harness)",
+   technique="lattice enumeration on the real close code with a reference model written from the property statement (exact outputs, conservation, byte-identical transactions on both sides), independent ECDSA verification and the btcd script interpreter as oracle; two real ChanClosers and the rbf_coop state machines driven synchronously",
+   text="Balance x fee x dust x role x type lattice on CoopCloseBalance/CreateCooperativeCloseTx and on real channels (all 7 types, both openers, legacy + RBF options, p2wkh/p2wsh/p2tr pairs); all ideal-fee pairs in [100,700]^2 (thorough; quick = step 7 + near-diagonal) between two real ChanClosers; rbf_coop state machines driven through ProcessEvent over fee ladders.",
+   note="protofsm goroutine executor, link flushing and chain notifications replaced by a synchronous driver; Environment.BlockHeight = 0 as in production; OP_RETURN/aux close outputs outside the alphabet; fixed key material.", ref="§4 C17"),
+ "C18": dict(cat="exploration", engine="grid (in-harness)+synctest",
+   technique="grid/lattice enumeration with a scenario-independent oracle computed from the transaction bytes and the recorded BumpRequests, full sweeper->aggregator->publisher scenarios run inside testing/synctest bubbles for deterministic quiescence, 3x replay gate before any report",
+   text="Fee-function traces (all (start,end) <= 32/64 x conf <= 10/13 x every block subset x Increment interleavings + structural rates to 2^40/2^50 and conf targets to 2016) and full sweeper pipeline scenarios (threshold +-1 lattices x every block subset x mempool/publish answer masks) are enumerated exhaustively on the real code.",
+   note="Exported API only; goroutine interleavings inside one block handler are the runtime's; three genuine findings were repaired in /repo (fix: commits 1eaf562, f399f77, 1c24e77).", ref="§4 C18"),
+})
+
 NOT_YET = "harness not built yet in this round (planned, see DESIGN.md §4)"
 
 def main():
@@ -77,6 +100,9 @@ ENGINES = [
  {"name": "evid", "path": "engine/evid", "serves_properties": ALL, "kind_free_text": "evidence/violation/known-findings reporting"},
  {"name": "explore", "path": "engine/explore", "serves_properties": ["C01","C02","C03","C04","C05","C06"], "kind_free_text": "explicit-state search over a non-clonable implementation: history replay on fresh instances, canonical-key dedup, optional deviation bound, 16 workers"},
  {"name": "chanmc", "path": "engine/chanmc", "serves_properties": ["C01","C02","C03","C04","C05","C06","C17"], "kind_free_text": "two real LightningChannels on two bbolt DBs + FIFO wires + script of intents; oracles and reconnect reference model"},
+ {"name": "seqmc", "path": "engine/seqmc", "serves_properties": ["C07","C16"], "kind_free_text": "level-synchronous BFS over operation alphabets on a real instance with reference-model oracle hooks"},
+ {"name": "vsched", "path": "engine/vsched", "serves_properties": ["C07"], "kind_free_text": "cooperative baton-passing scheduler: one thread runs at a time, scheduling points at lock operations and DB transactions, deadlock detection"},
+ {"name": "vsync", "path": "engine/vsync", "serves_properties": ["C07"], "kind_free_text": "drop-in sync.Mutex/RWMutex shim calling into vsched (bound by rewriting one import line of the file under test at check time)"},
  {"name": "crashdb", "path": "engine/crashdb", "serves_properties": ["C02","C07","C13","C16"], "kind_free_text": "kvdb.Backend wrapper: counts committed write transactions, crash-after-k, failure injection"},
 ]
 if __name__ == "__main__":
